@@ -9,6 +9,10 @@ fn main() {
     if args.is_empty() {
         machinery_fail("usage: vbevy <id> [quick|thorough] [--replay <file>]");
     }
+    if args[0] == "probe-order" {
+        println!("chain_first={}", c19::probe_chain_first());
+        return;
+    }
     let id = args[0].to_uppercase();
     let mut tier = std::env::var("VERIF_TIER").unwrap_or_else(|_| "quick".into());
     let mut replay: Option<String> = None;
